@@ -11,6 +11,7 @@ Script operations (tuples):
     ("gc", T)                one garbage-collection pass with the clock at T0+T
     ("delete", sym)          storage.delete_event(id)
     ("get", sym)             storage.get_event(id)
+    ("http", sym)            GET /e/<id> through web.create_app(storage)
     ("query", [absfilter])   a REQ's stored answer through storage.subscribe(...)
     ("squery", [absfilter])  storage.run_single_query(filters)
 """
@@ -365,8 +366,20 @@ async def run_script(st, backend, uni, script, log_errors=None, keydump=None):
                 ev = await st.get_event(uni.conc_value(op[1]))
             except Exception:
                 ev = None
-            found = ev is not None and uni.sym_event(ev) == op[1]
-            lines.append({"a": "Get", "id": op[1], "found": bool(ev is not None), "_verbatim": found or ev is None})
+            lines.append({"a": "Get", "via": "store", "id": op[1], "found": bool(ev is not None), "got": _got(uni, ev)})
+        elif kind == "http":
+            # the same look-up through the web application: GET /e/<id> (falcon ASGI app built by web.create_app)
+            status, ctype, body = await http_get(st, "/e/" + uni.conc_value(op[1]))
+            ev = None
+            if status == 200:
+                try:
+                    ev = C.strict_json(body.decode("utf-8"))
+                    if not isinstance(ev, dict):
+                        ev = {"id": "?"}
+                except Exception:
+                    ev = {"id": "?"}
+            lines.append({"a": "Get", "via": "http", "id": op[1], "found": status == 200, "got": _got(uni, ev), "_status": status,
+                          "_ctype": ctype})
         elif kind in ("query", "squery", "rawquery"):
             fs = op[1]
             if kind == "rawquery":
@@ -400,6 +413,37 @@ async def run_script(st, backend, uni, script, log_errors=None, keydump=None):
     if keydump is not None and lines and "post" in lines[-1] and "_keys" not in lines[-1]:
         lines[-1]["_keys"] = await keydump(st)
     return lines
+
+
+def _got(uni, ev):
+    """projection of a look-up's answer: the symbol of the accepted event it equals in all seven fields, "none", or "?..." """
+    if ev is None:
+        return "none"
+    sym = uni.sym_event(ev)
+    if sym is not None:
+        return sym
+    return "?" + str(ev.get("id") if isinstance(ev, dict) else getattr(ev, "id", ev))[:16]
+
+
+async def http_get(st, path, headers=None):
+    """one HTTP GET against the relay's ASGI application (no lifespan events: the storage is already set up)"""
+    from falcon import testing
+
+    app = getattr(st, "_verif_app", None)
+    if app is None:
+        from nostr_relay import web
+
+        app = web.create_app(storage=st)
+        logging.disable(logging.CRITICAL)
+        st._verif_app = app
+    scope = testing.create_scope(path=path, headers=headers)
+    collector = testing.ASGIResponseEventCollector()
+    await app(scope, testing.ASGIRequestEventEmitter(), collector)
+    ctype = ""
+    for k, v in collector.headers or []:
+        if k.lower() == "content-type":
+            ctype = v
+    return collector.status, ctype, b"".join(collector.body_chunks)
 
 
 def _clone(ev):
